@@ -17,7 +17,7 @@ Is(e) == l <= Len(Trace) /\ Ev.e = e /\ l' = l + 1
 TInit == WoInit /\ l = 1 /\ TLCSet(1, 1)
 \* several runs may be concatenated: a reset is a fresh database in a fresh process
 Reset == /\ lock' = "none" /\ kind' = "none" /\ inRec' = FALSE /\ stamp' = <<>> /\ stamped' = {} /\ logged' = {}
-         /\ lastStamp' = 0 /\ maxLogged' = 0 /\ unlogged' = {} /\ disk' = <<>> /\ hdrNext' = 0 /\ hdrNx' = 0 /\ hdrDone' = FALSE
+         /\ lastStamp' = 0 /\ maxLogged' = 0 /\ unlogged' = {} /\ disk' = <<>> /\ hdrNext' = 0 /\ hdrNx' = 0 /\ hdrDone' = "no"
 TStep == \/ Is("reset") /\ Reset
          \/ Is("begin") /\ Begin(Ev.k)
          \/ Is("S+") /\ SharedLock
@@ -29,6 +29,7 @@ TStep == \/ Is("reset") /\ Reset
          \/ Is("wal") /\ LogAppend(Ev.lsn)
          \/ Is("sync") /\ LogSync
          \/ Is("page") /\ WritePage(Ev.id, Ev.lsn)
+         \/ Is("pagefail") /\ WritePageFails(Ev.id, Ev.lsn)
          \/ Is("hdr") /\ WriteHeader(Ev.next, Ev.nx)
          \/ Is("result") /\ Result(Ev.ok)
          \/ Is("aborted") /\ Aborted /\ l + 1 <= Len(Trace) /\ Trace[l + 1].e = "crash"
